@@ -111,7 +111,7 @@ def build_and_audit(prop: str, mod, tier: str):
     if tier == "thorough":
         mods += list(getattr(mod, "LEAN_MODULES_THOROUGH", []))
     with Lock():
-        rc_d, out_d = sh(["lake", "build", "driver"], cwd=LEAN_DIR, timeout=3000)
+        rc_d, out_d = sh(["lake", "build"] + list(getattr(mod, "DRIVERS", ["driver"])), cwd=LEAN_DIR, timeout=3000)
         driver_ok = rc_d == 0
         if not driver_ok:
             broken.append({"kind": "model-build", "what": "the Lean model/driver no longer builds", "detail": out_d[-3000:]})
@@ -224,7 +224,7 @@ def main():
         case = json.load(open(args.replay))
         with Lock():
             sh(["python3", os.path.join(VERIF, "tools", "gen_consts.py")])
-            rc_d, _ = sh(["lake", "build", "driver"], cwd=LEAN_DIR, timeout=3000)
+            rc_d, _ = sh(["lake", "build"] + list(getattr(mod, "DRIVERS", ["driver"])), cwd=LEAN_DIR, timeout=3000)
         ctx = Ctx(prop, args.tier, seed, rc_d == 0)
         if "no_failing_input_found" in case:
             print(f"replay {args.replay}: names broken obligations, no input to replay:")
